@@ -5,7 +5,7 @@ LEVEL = "model_checking"
 MANIFEST = {
     "engine": "tlc Unified case generation + vhfmt c45 + tlc UnifiedCheck (batch trace validation)",
     "technique": "TLC enumerates pairs of abstract files / trees; go-git's Tree.Patch + UnifiedEncoder output is tokenised into abstract patch records and TLC evaluates the TLA+ predicates of git apply / git diff on every record (hunk well-formedness, ApplyPatch(old) = new over trees incl. create/delete/mode/rename/type change/binary, statistics = minimal-diff counts); a sample is cross-checked with git apply and with git's own patch judged by the same predicates",
-    "text": "Exhaustive within the bound: every ordered pair of text files with <= 2 (quick) / <= 3 (thorough) lines over {x,y,z} x final-newline flags x context {0,1,3}; a 12-line template with 1 (quick) / <= 2 (thorough) edits x context {0,1,3} (hunk splitting / merging); all transitions of one path between 14 entry states (absent, empty, text, +x, no final newline, symlink, binary) and rename scenarios over two paths. Every go-git patch is validated by TLC; the spec itself is validated against git (git apply outcome, git's own -U<n> patch and --numstat) on a sample.",
+    "text": "Exhaustive within the bound: every ordered pair of text files with <= 2 (quick) / <= 3 (thorough) lines over {x,y,z} x final-newline flags x context {0,1,3}; a 12-line template with 1 (quick) / <= 2 (thorough) edits x context {0,1,3} (hunk splitting / merging); all transitions of one path between 14 entry states (absent, empty, text, +x, no final newline, symlink, binary), rename scenarios over two paths, and 150 two-file patches (family M: a file with 10/7/4/3/0 unchanged trailing lines followed by a file changed at line 1/2/6, added, deleted, binary, mode-only) for which the multi-file patch must be the concatenation of the single-file patches. Every go-git patch is validated by TLC; the spec itself is validated against git (git apply outcome, git's own -U<n> patch and --numstat) on a sample.",
     "note": "Line contents are symbols (no CRLF / whitespace / very long lines); git apply needs --unidiff-zero for context 0 and takes binary post-images from the object database; the harness tokeniser of patch text is trusted; rename detection thresholds are not enumerated.",
 }
 CFG = """CONSTANTS MaxLen = %d  LongEdits = %d  Emit = TRUE
@@ -32,8 +32,12 @@ def run(ctx):
     ml, le = (3, 2) if ctx.thorough else (2, 1)
     r = ctx.tlc("Unified", cfg_text=CFG % (ml, le), timeout=1800)
     recs = ctx.path("uni_recs.ndjson")
+    import time
+    t_h = time.time()
     ctx.vh("c45", [r.dir + "/uni_cases.ndjson", recs], pkg="vhfmt", timeout=3000)
+    ctx.cov["phase_wall_s"] = {"tlc_generate": round(r.wall, 1), "harness_incl_git_leg": round(time.time() - t_h, 1)}
     r2 = ctx.tlc("UnifiedCheck", cfg_text=CFG2, files={"uni_recs.ndjson": open(recs).read()}, timeout=3000, dirname="tla2")
+    ctx.cov["phase_wall_s"]["tlc_validate"] = round(r2.wall, 1)
     verdicts = {v["id"]: v for v in ctx.printed_json(r2) if isinstance(v, dict) and "id" in v}
     n = 0
     spec_errors = []
